@@ -63,6 +63,11 @@ def micro(name):
         return {"seed": 0, "family": "micro_m4", "nlps": 2, "K": 2, "T": 2, "P": 1, "split": 2, "need": [99, 99], "cap": [99, 99], "endmask": [1, 1],
                 "payloads": pay, "init": [[snd(0, 2, 1), snd(0, 5, 1)], [snd(0, 3, 2)]],
                 "trans": [[tr(1, []), tr(0, [snd(1, 1, 1)])], [tr(0, []), tr(1, [])]]}
+    if name == "m5":   # spec/TimeWarpMC_m5.tla: rollback that undoes a send to the LP itself and a send to an LP of the same thread
+        return {"seed": 0, "family": "micro_m5", "nlps": 3, "K": 2, "T": 3, "P": 1, "split": 3, "need": [99] * 3, "cap": [99] * 3, "endmask": [1, 1],
+                "payloads": pay, "init": [[snd(0, 3, 1)], [], [snd(0, 1, 2)]],
+                "trans": [[tr(0, [snd(0, 1, 3), snd(1, 2, 3)]), tr(0, [snd(1, 1, 3)]), tr(1, [])],
+                          [tr(1, [snd(1, 3, 3)]), tr(1, [snd(1, 1, 3)]), tr(1, [])]]}
     if name == "d1":   # spec/TimeWarpMC_d1.tla: the LPs of m1 on two ranks
         return dict(micro("m1"), family="micro_d1")
     if name == "d2":   # spec/TimeWarpMC_d2.tla: 3 LPs over 2 ranks (rank 0: LP0, LP1 on two threads; rank 1: LP2)
